@@ -443,7 +443,7 @@ def run_comp_history(c, o):
 
     rng = np.random.default_rng(c["seed"] + 3)
     kind, case, pts, _of, _wrt = gen(c)
-    if kind == "aero" and c["seed"] % 2 == 0:
+    if kind == "aero":
         case["rotational"] = True
         case["flow"]["omega"] = [float(x) for x in np.round(rng.uniform(-0.3, 0.3, 3), 3)]
     prob = build(kind, case)
